@@ -33,7 +33,7 @@ def run(tier):
     art = common.artifacts()
     stats, problems = corpus_validation(art["sylt"])
     templates = list(templates_core.CATALOGUE)
-    templates += gen.random_templates(common.seed(), 40 if tier == "quick" else 600)
+    templates += gen.random_templates(common.seed(), 40 if tier == "quick" else 15000)
     for f, v, msg in problems: print("NOTE corpus program %s: %s %s" % (f, v, msg))
     rc = tvrun.tv_check("C01", tier, templates, art["sylt"], t0, assumptions=tvrun.TV_ASSUMPTIONS,
                         extra_cov={"engine_self_validation": {"corpus": "tests/**/*.sy compiled by the real compiler, run by E-LUA (concrete mode)", "outcomes": stats, "disagreements": problems[:10]}})
